@@ -2,6 +2,7 @@ use serde_json::{json, Value};
 use std::fs::OpenOptions;
 use tensor_chain::raft_wal::{RaftRecoveryState, RaftWal, RaftWalEntry};
 use tensor_chain::tx_wal::{TxOutcome, TxWal, TxWalEntry};
+use tensor_store::{TensorWal, WalConfig, WalEntry};
 
 fn tmpdir() -> std::path::PathBuf {
     let base = std::env::var("VERIF_BUILD").unwrap_or_else(|_| "/verif/.build".into());
@@ -111,11 +112,54 @@ fn tx_torn(req: &Value) -> Value {
            "replay2_ok": r2_ok, "new_record_recovered": r2_has_new, "replay2_prefix_matches": r2_prefix})
 }
 
+fn ts_rec(i: u64) -> WalEntry {
+    WalEntry::MetadataDelete { key: format!("key-{i}") }
+}
+
+fn tensor_torn(req: &Value) -> Value {
+    let k = req["k"].as_u64().unwrap_or(1);
+    let off = req["cut_offset"].as_u64().unwrap_or(0);
+    let mframe = req["frame_len"].as_u64().unwrap_or(10);
+    let dir = tmpdir();
+    let path = dir.join("store.wal");
+    let mut sizes = vec![0u64];
+    {
+        let mut wal = TensorWal::open(&path, WalConfig::default()).unwrap();
+        for i in 1..=k {
+            wal.append(&ts_rec(i)).unwrap();
+            sizes.push(std::fs::metadata(&path).unwrap().len());
+        }
+    }
+    let before = sizes[(k - 1) as usize];
+    let real_frame = sizes[k as usize] - before;
+    let cut = before + map_offset(off, mframe, real_frame);
+    OpenOptions::new().write(true).open(&path).unwrap().set_len(cut).unwrap();
+    let full = cut == sizes[k as usize];
+    let expect1: Vec<WalEntry> = (1..=(if full { k } else { k - 1 })).map(ts_rec).collect();
+    let (r1_ok, r1_match) = match TensorWal::open(&path, WalConfig::default()).map_err(|e| e.to_string()).and_then(|w| w.replay().map_err(|e| e.to_string())) {
+        Ok(es) => (true, es == expect1),
+        Err(_) => (false, false),
+    };
+    let newrec = ts_rec(1000);
+    let app_ok = match TensorWal::open(&path, WalConfig::default()) {
+        Ok(mut w) => w.append(&newrec).is_ok(),
+        Err(_) => false,
+    };
+    let (r2_ok, r2_has_new, r2_prefix) = match TensorWal::open(&path, WalConfig::default()).map_err(|e| e.to_string()).and_then(|w| w.replay().map_err(|e| e.to_string())) {
+        Ok(es) => (true, es.last() == Some(&newrec), es.len() == expect1.len() + 1 && es[..expect1.len()] == expect1[..]),
+        Err(_) => (false, false, false),
+    };
+    let _ = std::fs::remove_dir_all(&dir);
+    json!({"cut": cut, "sizes": sizes, "replay1_ok": r1_ok, "replay1_matches": r1_match, "append_ok": app_ok,
+           "replay2_ok": r2_ok, "new_record_recovered": r2_has_new, "replay2_prefix_matches": r2_prefix})
+}
+
 pub fn handle(op: &str, req: &Value) -> Option<Value> {
     Some(match op {
         "wal_torn" => match req["wal"].as_str().unwrap_or("") {
             "raft" => raft_torn(req),
             "tx" => tx_torn(req),
+            "tensor" => tensor_torn(req),
             other => json!({"error": format!("unknown wal {other}")}),
         },
         "raft_from_entries" => {
